@@ -35,7 +35,8 @@ PLANS = {
             "thorough": [("enum", "d4ties", 16, 4, ["--ties", "1"]), ("book", "ties", 12000, 120, []), ("book", "ties", 4000, 100, ["--prices", "2"]),
                          ("book", "ties", 2000, 100, ["--levels", "1,10,24"]),
                          ("env", "overfull", 2000, 12, []), ("menv", "overfull", 2000, 12, [])]},
-    "C06": {"quick": [("enum", "d3", 4, 3, []), ("book", "modify", 500, 40, ["--levels", "5"]), ("book", "modify", 200, 60, ["--prices", "2"])],
+    "C06": {"quick": [("enum", "d3", 4, 3, []), ("book", "modify", 500, 40, ["--levels", "5"]), ("book", "modify", 200, 60, ["--prices", "2"]),
+                      ("book", "toggle", 300, 60, [])],
             "thorough": [("enum", "d4", 16, 4, []), ("book", "modify", 10000, 80, ["--levels", "5"]), ("book", "modify", 4000, 120, ["--prices", "2"]),
                          ("book", "toggle", 2000, 100, [])]},
     "C07": {"quick": [("book", "reload", 300, 60, ["--levels", "1,10"]), ("market", "reload", 100, 80, ["--levels", "1,10"])],
@@ -531,7 +532,7 @@ SPECS = {
                             or (f.profile == "overfull" and f.kind == "A"),
                 k=lambda f: f.profile in ("ties", "overfull") and f.kind == "K"),
     "C06": dict(modules=["Bourse.Props.C06"],
-                a=lambda f: (f.kind == "A" and f.audit == "C06") or (f.kind == "R" and bool(cfields(f)) and f.profile == "modify"),
+                a=lambda f: (f.kind == "A" and f.audit == "C06") or (f.kind == "R" and bool(cfields(f)) and f.profile in ("modify", "toggle")),
                 needs=lambda lines: any(l.startswith(("O modify", "O ev modify")) for l in lines),
                 k=lambda f: f.kind == "K" and bool(cfields(f)) and "modify" in f.op),
     "C07": dict(modules=["Bourse.Props.C07"],
